@@ -1,6 +1,9 @@
 // content.h -- stub peers' payload and frame writers. Everything is rendered with wire.h from
 // (content id, length, kind): no payload bytes are stored in plans.
 #pragma once
+#include <unistd.h>
+#include <cstdio>
+#include <string>
 #include <algorithm>
 #include <cstdint>
 #include <vector>
@@ -46,6 +49,46 @@ inline Bytes contentBytes(uint32_t id, uint32_t off, size_t n)
 // Dictionary of byte strings that mean something on the buses this protocol captures (a captured Ethernet preamble + SFD,
 // broadcast / link-local multicast addresses, LLC/SNAP, HDLC flags, all-zero). One content id in eight starts its data
 // region with one of them: value-dependent special cases on such patterns are otherwise out of reach of pseudo-random bytes.
+// ... plus the byte sequences that occur as hexadecimal literals in the sources of the tree under test (build.sh ->
+// lib/litseq.txt next to the binary) and a few text-encoding marks: a prefix the code treats specially is one of them.
+inline const std::vector<Bytes>& sourceSequences()
+{
+    static const std::vector<Bytes> seqs = []
+    {
+        std::vector<Bytes> v = {{0xEF, 0xBB, 0xBF}, {0xFF, 0xFE}, {0xFE, 0xFF}, {0x20}, {0x09}, {0x0D, 0x0A}, {0x80}, {0xFF}, {0x7F}, {0x1B, 0x5B}};
+        char exe[4096];
+        const ssize_t n = readlink("/proc/self/exe", exe, sizeof exe - 1);
+        if (n <= 0)
+            return v;
+        exe[n] = 0;
+        std::string path(exe);
+        const size_t slash = path.rfind('/');
+        if (slash == std::string::npos)
+            return v;
+        path = path.substr(0, slash) + "/lib/litseq.txt";
+        FILE* f = fopen(path.c_str(), "r");
+        if (!f)
+            return v;
+        char line[80];
+        while (fgets(line, sizeof line, f) && v.size() < 700)
+        {
+            Bytes b;
+            for (size_t i = 0; line[i] && line[i + 1] && line[i] != '\n'; i += 2)
+            {
+                unsigned x = 0;
+                if (sscanf(line + i, "%2x", &x) != 1)
+                    break;
+                b.push_back(static_cast<uint8_t>(x));
+            }
+            if (b.size() >= 2)
+                v.push_back(std::move(b));
+        }
+        fclose(f);
+        return v;
+    }();
+    return seqs;
+}
+
 inline void applyDictionary(uint8_t* data, size_t n, uint32_t id)
 {
     static const uint8_t d0[] = {0x55, 0x55, 0x55, 0x55, 0x55, 0x55, 0x55, 0xD5};
@@ -64,6 +107,14 @@ inline void applyDictionary(uint8_t* data, size_t n, uint32_t id)
     const uint64_t r = mix64(id * 0x9E3779B97F4A7C15ULL + 4242);
     if ((r & 7) != 0 || n == 0)
         return;
+    if ((r >> 3) & 1)
+    {
+        const auto& seqs = sourceSequences();
+        const Bytes& q = seqs[(r >> 8) % seqs.size()];
+        for (size_t i = 0; i < q.size() && i < n; ++i)
+            data[i] = q[i];
+        return;
+    }
     const auto& e = dict[(r >> 8) % 8];
     for (size_t i = 0; i < e.n && i < n; ++i)
         data[i] = e.p[i];
